@@ -122,7 +122,7 @@ func (r ReadDiscreteInputsResponse) bytes(data []byte) []byte {
 	data[1] = FunctionReadDiscreteInputs
 	coilsByteLen := uint8(len(r.Data))
 	data[2] = coilsByteLen
-	copy(data[3:3+coilsByteLen], r.Data)
+	copy(data[3:], r.Data) // no uint8 arithmetic for the upper bound: 3+coilsByteLen wraps for payloads over 252 bytes
 
 	return data
 }
